@@ -7,5 +7,5 @@ import (
 )
 
 func TestSim(t *testing.T) {
-	harness.Main(t, map[string]harness.WorldFunc{"qa": Run})
+	harness.Main(t, map[string]harness.WorldFunc{"qa": Run, "qb": RunQB})
 }
